@@ -6,6 +6,8 @@ CONSTANTS
   HNat <- MCNat
   HMol <- MCMol
   HWins <- MCWins
+  HEntries = {"model", "contrib", "full"}
+  HSlipKinds = {}
   HLevels = {"request"}
   HKeys = {"none"}
   HWhats = {"sed"}
